@@ -68,6 +68,14 @@ StreamVerdict(e) ==
      ELSE IF valid /\ e.k1 \notin KeyPrefixes /\ ~MetaCollision(e.k1, e.enc) /\ e.k2 # <<>> /\ ~MetaCollision(e.k2, e.enc)
              /\ (Len(e.cutsc) # 2 \/ e.codesc[2] \notin Allowed(e.k2, e.enc, "curtsies", TRUE)) THEN "SecondKeyWholeUnderItsName"
      ELSE "ok"
+\* end to end over a pipe: e.items are recognised keypresses (letters, table sequences, characters) none of which is
+\* a proper prefix of a longer recognised sequence; all of them had arrived before the first request; bytes naming
+PipeVerdict(e) ==
+  IF e.exc # "" THEN "NeverFailsOnValidInput"
+  ELSE IF FlattenSeq(e.keys) # FlattenSeq(e.items) THEN "LosslessBytes"
+  ELSE IF e.keys # e.items THEN "WholeSequenceOneKeyUnderTableName"
+  ELSE "ok"
+
 Stream20Verdict(e) ==
   IF e.cutsc # e.cutss \/ e.cutsc # e.cutsb \/ (e.excc = "") # (e.excs = "") \/ (e.excc = "") # (e.excb = "") THEN "ModesCutAtSamePlaces"
   ELSE IF e.keysb # [j \in 1..Len(e.cutsb) |-> SubSeq(e.bytes, IF j = 1 THEN 1 ELSE e.cutsb[j - 1] + 1, e.cutsb[j])] THEN "BytesNamingReturnsTheBytes"
@@ -106,6 +114,7 @@ Judge(e) ==
     [] e.op = "stream" -> V(StreamVerdict(e), StreamExact(e))
     [] e.op = "node20" -> V(Node20Verdict(e), NodeExact(e))
     [] e.op = "stream20" -> V(Stream20Verdict(e), StreamExact(e))
+    [] e.op = "pipe" -> V(PipeVerdict(e), TRUE)
     [] e.op = "scalar" -> V(ScalarVerdict(e), TRUE)
     [] e.op = "keymap" -> V(KeymapVerdict(e), TRUE)
     [] e.op = "tables" -> V(TableVerdict(e), TRUE)
